@@ -1,4 +1,5 @@
 """Views over the mirfacts document: bodies, CFG, dominators, expression trees, call graph."""
+import os
 import re
 from collections import defaultdict, deque
 
@@ -341,6 +342,9 @@ class Facts:
         self.hash = doc.get("_hash")
         self.repo = doc.get("_repo")
         self.bodies = _Bodies()
+        if not os.environ.get("VERIF_NO_INLINE"):
+            from . import inline as _inline
+            self.inlined = _inline.inline_new_helpers(doc)
         for raw in doc["bodies"]:
             b = Body(raw, self)
             self.bodies[b.path] = b
